@@ -66,6 +66,12 @@ def make_ctx():
     c.lgi = sempler.LGANM(i["Wi"], i["meansi"], i["variancesi"])
     c.nd = sempler.NormalDistribution(i["mean"], i["cov"])
     c.anm = sempler.ANM(i["A"], c.assignments, c.noises)
+    # second instances of every class: state must not be shared between objects either
+    c.anm2 = sempler.ANM(np.array([[0, 0, 1], [0, 0, 1], [0, 0, 0]]), [None, None, lambda x: x[:, 0] + 2 * x[:, 1]],
+                         [noise.uniform(0, 1), noise.normal(1, 4), noise.laplace(0, 1)])
+    c.nd2 = sempler.NormalDistribution(np.array([0.5, -0.5]), np.array([[1.0, 0.25], [0.25, 2.0]]))
+    # a model with non-dyadic weights: its population covariance is symmetric only up to rounding
+    c.lgr = sempler.LGANM(np.array([[0, 0.1, 0.7], [0, 0, -0.3], [0, 0, 0]]), np.array([0.1, -0.2, 0.3]), np.array([0.3, 1.7, 0.9]))
     c.last = None
     c.passed = []
     return c
@@ -99,11 +105,29 @@ def _ops():
         ("nd.regress(0,[1,2])", lambda c: c.nd.regress(0, [1, 2])),
         ("nd.mse(0,[1])", lambda c: c.nd.mse(0, [1])),
         ("nd.sample(3, random_state=2)", lambda c: c.nd.sample(3, random_state=2)),
+        ("anm.sample(3, do+noise on one variable, random_state=2)", lambda c: c.anm.sample(3, do_interventions=_d(c, {1: noise.normal(5, 0)}), noise_interventions=_d(c, {1: noise.uniform(7, 8), 0: noise.normal(1, 1)}), random_state=2)),
+        ("anm.sample(3, do+shift on one variable, random_state=2)", lambda c: c.anm.sample(3, do_interventions=_d(c, {2: noise.normal(5, 0)}), shift_interventions=_d(c, {2: noise.uniform(7, 8)}), random_state=2)),
+        ("anm2.sample(3, random_state=1)", lambda c: c.anm2.sample(3, random_state=1)),
+        ("anm2.sample(2, noise, random_state=1)", lambda c: c.anm2.sample(2, noise_interventions=_d(c, {2: noise.normal(0, 1)}), random_state=1)),
+        ("nd2.conditional(0,1,x)", lambda c: c.nd2.conditional(0, 1, 0.5)),
+        ("nd2.sample(2, random_state=3)", lambda c: c.nd2.sample(2, random_state=3)),
+        ("lgr.sample(pop) sampled from, attributes compared", lambda c: _pop_then_sample(c)),
         ("anm.sample(3, random_state=1)", lambda c: c.anm.sample(3, random_state=1)),
         ("anm.sample(3, do, random_state=1)", lambda c: c.anm.sample(3, do_interventions=_d(c, {1: noise.normal(5, 0)}), random_state=1)),
         ("anm.sample(2, shift+noise, random_state=4)", lambda c: c.anm.sample(2, shift_interventions=_d(c, {0: noise.normal(1, 0)}), noise_interventions=_d(c, {2: noise.uniform(3, 4)}), random_state=4)),
     ]
     return ops
+
+
+def _pop_then_sample(c):
+    """A population distribution obtained from a model is itself immutable under sampling and queries."""
+    d = c.lgr.sample(population=True, shift_interventions=_d(c, {1: (0.1, 0.2)}))
+    before = (d.mean.copy(), d.covariance.copy())
+    x = d.sample(2, random_state=1)
+    d.regress(2, [0, 1])
+    d.marginal([1, 0])
+    same = np.array_equal(d.mean, before[0]) and np.array_equal(d.covariance, before[1])
+    return (before[0], before[1], x, "attributes unchanged" if same else "ATTRIBUTES CHANGED BY sample/regress/marginal")
 
 
 OPS = _ops()
@@ -163,8 +187,7 @@ def rdigest(r):
 
 
 def snapshot(c):
-    anm = {k: v for k, v in vars(c.anm).items()}
-    return H.digest_value([vars(c.lg), vars(c.lgi), vars(c.nd), anm])
+    return H.digest_value([vars(c.lg), vars(c.lgi), vars(c.nd), dict(vars(c.anm)), dict(vars(c.anm2)), vars(c.nd2), vars(c.lgr)])
 
 
 _REF = {}
@@ -520,7 +543,7 @@ def describe(tier, seed):
     return {
         "technique": "explicit-state exploration of call histories on live model objects (all histories to a depth without deduplication + BFS on a canonical state digest, "
                      "differential oracle against freshly built models) and exhaustive small-scope enumeration of a registry of public functions with byte snapshots",
-        "rule": "histories over %d operations (LGANM float and int variants: population / finite sampling with do, shift, noise, overlapping, None, {}; NormalDistribution "
+        "rule": "histories over %d operations (two instances of every class; LGANM float, int and non-dyadic variants: population / finite sampling with do, shift, noise, overlapping, None, {}; NormalDistribution "
                 "marginal, conditional, regress, mse, sample; ANM sampling plain and intervened) and 3 hostile moves (overwrite returned arrays, overwrite constructor "
                 "inputs, mutate passed dicts): all histories of length <= %d, BFS with deduplication to depth %d; invariant: attribute snapshot and method defaults unchanged, "
                 "every operation equals its result on a fresh model. Registry: %d graph utilities on every PDAG p<=3 (int and float) and weighted DAG, for every node / "
